@@ -3,6 +3,7 @@ mod extcases;
 mod gen;
 mod intern;
 mod props;
+mod purity;
 mod recorder;
 mod rng;
 mod schemas;
@@ -53,6 +54,7 @@ fn main() {
             props::one_case(&args[2], &si, &rep["input"], &mut out);
             out.write(&args[4]);
         }
+        "observe-batch" => { purity::observe_batch(&args[2], &args[3]); return; }
         // validate-one <schema-file> <doc-file> full|nomerge   (child process of observe_isolated)
         "validate-one" => {
             let st = std::fs::read_to_string(&args[2]).unwrap();
